@@ -154,7 +154,7 @@ const ACCTS: [(&str, &str); 8] = [
     ("Spousal rrsp", "10000006"),
     ("individual tfsa", "30000001"),
 ];
-const SYMBOLS: [&str; 8] = ["CCO", "UCO", "DLR.TO", "H038778", "XIU.TO", "AAPL", "VFV.TO", "BRK.B"];
+const SYMBOLS: [&str; 10] = ["CCO", "UCO", "DLR.TO", "H038778", "XIU.TO", "AAPL", "VFV.TO", "BRK.B", "EFX", "CFX"];
 const IGNORED: [&str; 14] =
     ["BRW", "TFI", "TF6", "MGR", "DEP", "NAC", "CON", "INT", "EFT", "RDM", "", "dep", "Int", "eft"];
 const TIMES: [&str; 6] =
